@@ -22,6 +22,11 @@ fn alphabet<F: Flt>() -> Vec<F> {
         F::from_bits64(1),                       // smallest denormal
         F::from64(if F::PREC == 53 { f64::MAX } else { f32::MAX as f64 }),
         F::from64(if F::PREC == 53 { -f64::MIN_POSITIVE } else { -(f32::MIN_POSITIVE as f64) }),
+        // decimal fractions: 0.1 in the width of the type, and single-precision data widened to the
+        // width of the type (its shortest single-precision decimal is a different double)
+        F::from64(0.1),
+        F::from64(0.1f32 as f64),
+        F::from64(-1e15f32 as f64),
     ]
 }
 
@@ -76,7 +81,7 @@ fn key_order(text: &str) -> Vec<String> {
     out
 }
 
-fn check_type<F: Flt, D: Subject<F> + Serialize + DeserializeOwned>(st: &mut Stats, full_product: bool) {
+fn check_type<F: Flt + Serialize + DeserializeOwned, D: Subject<F> + Serialize + DeserializeOwned>(st: &mut Stats, full_product: bool) {
     let d = Dims::NONE;
     let l = D::layout(d);
     let tn = l.type_name.clone();
@@ -154,10 +159,11 @@ fn check_type<F: Flt, D: Subject<F> + Serialize + DeserializeOwned>(st: &mut Sta
             }
             Err(e) => fail("deserialize", format!("from_value failed: {e}")),
         }
-        // (ii) through JSON text for values the format represents exactly (short dyadics)
+        // (ii) through JSON text, for values the format represents exactly: a value qualifies when
+        // the bare float survives to_string / from_str bit for bit (serde_json without
+        // float_roundtrip may misparse long decimals by one ulp - that is the format, not num-dual)
         let short = vals.iter().all(|v| {
-            let x = v.to64();
-            x.is_finite() && (x == 0.0 || (x.abs() >= 1e-3 && x.abs() <= 1e6 && (x * 1024.0).fract() == 0.0))
+            serde_json::to_string(v).ok().and_then(|t| serde_json::from_str::<F>(&t).ok()).map(|b| b.bits() == v.bits()).unwrap_or(false)
         });
         if short {
             let text = serde_json::to_string(&x).unwrap();
@@ -170,7 +176,7 @@ fn check_type<F: Flt, D: Subject<F> + Serialize + DeserializeOwned>(st: &mut Sta
             match serde_json::from_str::<D>(&text) {
                 Ok(back) => {
                     let bp = back.parts(d);
-                    let same = (0..n).all(|i| bp.vals[i] == vals[i]);
+                    let same = (0..n).all(|i| bp.vals[i].bits() == vals[i].bits());
                     if !same {
                         fail("text-roundtrip", format!("{text} does not deserialize to the original parts"));
                     }
@@ -233,8 +239,8 @@ fn main() {
         mode: cli.mode,
         seed: cli.seed,
         start,
-        rule: "Dual, Dual2, Dual3, HyperDual, HyperHyperDual over f32 and f64 and the nestings Dual<Dual>, Dual<Dual<Dual>>, Dual2<Dual>, Dual3<HyperDual>, HyperDual<Dual2>, HyperHyperDual<Dual> x parts from {0, -0, 1.5, -2.25, 1/3, pi, smallest denormal, MAX, -MIN_POSITIVE}: full product for <= 4 parts, each part sweeping the alphabet with pairwise distinct other parts beyond; through serde_json::Value (bit-exact), through JSON text for short dyadics, and with the field order read off the serialized text. Non-trivial: every value.".into(),
-        assumptions: vec!["serde_json::Value holds numbers as f64, so f32 and f64 parts are represented exactly; JSON text is only used for values it represents exactly".into()],
+        rule: "Dual, Dual2, Dual3, HyperDual, HyperHyperDual over f32 and f64 and the nestings Dual<Dual>, Dual<Dual<Dual>>, Dual2<Dual>, Dual3<HyperDual>, HyperDual<Dual2>, HyperHyperDual<Dual> x parts from {0, -0, 1.5, -2.25, 1/3, pi, smallest denormal, MAX, -MIN_POSITIVE, 0.1, 0.1f32 and -1e15f32 widened}: full product for <= 4 parts, each part sweeping the alphabet with pairwise distinct other parts beyond; through serde_json::Value (bit-exact), through JSON text for every value whose bare float survives the text format bit for bit, and with the field order read off the serialized text. Non-trivial: every value.".into(),
+        assumptions: vec!["serde_json::Value holds numbers as f64, so f32 and f64 parts are represented exactly; JSON text is only used for values it represents exactly, decided on the bare float".into()],
         extra: json!({}),
         exhaustive: true,
         caps: vec![],
